@@ -41,6 +41,10 @@ def gen_case(rng, idx):
         spec["electric"] = [c for c in espec["electric"] if c["kind"] != "drive"] + ptis
         if not any(c["kind"] == "other_load" for c in spec["electric"]):       # an electric system has at least one consumer
             spec["electric"].append({"kind": "other_load", "name": "load_x", "swb": swbs[0], "rated": 500.0, "curve": [0.97]})
+        if rng.random() < 0.5:       # constant-efficiency propellers: 0 kW delivered is exactly 0 kW on the shaft
+            for c in mech:
+                if c["kind"] == "mech_load":
+                    c["curve"] = [float(np.round(rng.uniform(0.9, 1.0), 3))]
         spec["mechanical"] = mech + [{"kind": "pti_pto_ref", "name": p["name"]} for p in ptis]
     n = int(rng.choice([2, 3, 5, 8]))
     t0 = float(rng.choice([0.0, 1000.0, 1.7e9]))
@@ -64,6 +68,7 @@ def gen_case(rng, idx):
             aux_series[0] = float(np.round(0.05 * etotal, 1))
     P = [0.0 if rng.random() < 0.1 else p for p in P]       # quay / drifting samples
     return {"idx": idx, "kind": kind, "spec": spec, "t": t, "P": P, "aux_mode": aux_mode, "aux": aux, "aux_series": aux_series,
+            "reused_calculator": bool(rng.random() < 0.5),
             "op_profile": str(rng.choice(["none", "same", "other"]))}
 
 
@@ -134,6 +139,11 @@ def run_case(ctx, case, model=True):
             mc = MachineryCalculation(feems_system=plant.system)
             if case["kind"] == "hybrid":
                 prepare_hybrid(plant, case, n - 1)
+            if case.get("reused_calculator") and name == sorted(routes(case))[case["idx"] % len(routes(case))]:
+                # one route runs on a calculator that has already been used for another profile of the same length (a harbour stay)
+                warm = [0.0 if i % 2 == 0 else 0.3 * max(case["P"]) for i in range(n - 1)]
+                mc.calculate_machinery_system_output_from_statistics(propulsion_power=warm, frequency=np.diff(case["t"]), auxiliary_power_kw=case["aux"])
+                ctx.count("route_on_reused_calculator", name)
             r = fn(mc)
         except Exception as e:
             ctx.fail("predicate", "route-raises-" + core.error_class(e), f"route {name}: {type(e).__name__}: {e}", where)
@@ -223,7 +233,7 @@ def run(ctx):
     if CORPUS.exists():
         cases += [json.loads(p.read_text()) for p in sorted(CORPUS.glob("*.json"))]
     ncorp = len(cases)
-    cases += [gen_case(ctx.rng, i) for i in range(ctx.n(40, 1000))]
+    cases += [gen_case(ctx.rng, i) for i in range(ctx.n(60, 1000))]
     for ci, case in enumerate(cases):
         ok = run_case(ctx, case)
         sig = (case["kind"], json.dumps([(c["kind"], c.get("swb")) for c in case["spec"]["electric"]]), tuple(case["t"]), case["aux_mode"])
